@@ -5,6 +5,9 @@ package main
 import (
 	"fmt"
 	"go/types"
+	"math/big"
+	"regexp"
+	"sort"
 	"strings"
 
 	"golang.org/x/tools/go/ssa"
@@ -470,4 +473,211 @@ func (x *fnExec) callEffects(ci ssa.CallInstruction, e *effectSet) {
 	default:
 		e.top = true
 	}
+}
+
+var seqNameRe = regexp.MustCompile(`(?i)(tsn|ssn|sequencenumber|messageidentifier|^mid$|fsn$|rsn$|^nextmid|ackpoint)`)
+
+// isSeqTyped reports whether an SSA value denotes a protocol sequence number (by the names of the fields,
+// parameters, locals and accessor methods it is derived from).
+func isSeqTyped(v ssa.Value, depth int) bool {
+	if depth > 6 {
+		return false
+	}
+	switch t := v.(type) {
+	case *ssa.Parameter:
+		return seqNameRe.MatchString(t.Name())
+	case *ssa.UnOp:
+		if t.Op.String() == "*" {
+			if fa, ok := t.X.(*ssa.FieldAddr); ok {
+				st := fa.X.Type().Underlying().(*types.Pointer).Elem().Underlying().(*types.Struct)
+				return seqNameRe.MatchString(st.Field(fa.Field).Name())
+			}
+		}
+		return false
+	case *ssa.Field:
+		st := t.X.Type().Underlying().(*types.Struct)
+		return seqNameRe.MatchString(st.Field(t.Field).Name())
+	case *ssa.BinOp:
+		switch t.Op.String() {
+		case "+", "-":
+			_, cx := t.X.(*ssa.Const)
+			_, cy := t.Y.(*ssa.Const)
+			if cy {
+				return isSeqTyped(t.X, depth+1)
+			}
+			if cx {
+				return isSeqTyped(t.Y, depth+1)
+			}
+			return false
+		}
+		return false
+	case *ssa.Phi:
+		if seqNameRe.MatchString(t.Comment) {
+			return true
+		}
+		for _, e := range t.Edges {
+			if e != ssa.Value(t) && isSeqTyped(e, depth+1) {
+				return true
+			}
+		}
+		return false
+	case *ssa.Convert:
+		return isSeqTyped(t.X, depth+1)
+	case *ssa.ChangeType:
+		return isSeqTyped(t.X, depth+1)
+	case *ssa.Call:
+		if f := t.Call.StaticCallee(); f != nil {
+			return seqNameRe.MatchString(f.Name())
+		}
+		return false
+	case *ssa.Extract:
+		if c, ok := t.Tuple.(*ssa.Call); ok {
+			if f := c.Call.StaticCallee(); f != nil && t.Index == 0 {
+				return seqNameRe.MatchString(f.Name())
+			}
+		}
+		return false
+	}
+	return false
+}
+
+// serialAudit emits, for an ordering comparison between two sequence-number values in a function under
+// "serialaudit", the obligation that the raw comparison agrees with RFC 1982 serial arithmetic.
+func (x *fnExec) serialAudit(fr *frame, st *State, t *ssa.BinOp) {
+	if fr.C == nil || fr.inline || len(fr.C.Serial) == 0 {
+		return
+	}
+	var strictLT, swap, orEq bool
+	switch t.Op.String() {
+	case "<":
+		strictLT = true
+	case "<=":
+		strictLT, orEq = true, true
+	case ">":
+		strictLT, swap = true, true
+	case ">=":
+		strictLT, swap, orEq = true, true, true
+	default:
+		return
+	}
+	_ = strictLT
+	if _, c := t.X.(*ssa.Const); c {
+		return
+	}
+	if _, c := t.Y.(*ssa.Const); c {
+		return
+	}
+	b, ok := t.X.Type().Underlying().(*types.Basic)
+	if !ok || (b.Kind() != types.Uint32 && b.Kind() != types.Uint16) {
+		return
+	}
+	if !isSeqTyped(t.X, 0) || !isSeqTyped(t.Y, 0) {
+		return
+	}
+	a, c := x.val(fr, t.X).T, x.val(fr, t.Y).T
+	if swap {
+		a, c = c, a
+	}
+	w := a.S.W
+	d := BVBin("bvsub", c, a)
+	half := BVLit(new(big.Int).Lsh(big.NewInt(1), uint(w-1)), w)
+	ser := And(Not(Eq(d, BVU(0, w))), BVCmp("bvult", d, half)) // serial a < c
+	if orEq {
+		ser = Or(ser, Eq(a, c))
+	}
+	raw := fr.env[t].T
+	x.obligation(st, fr.C.Key+":assert#serial-compare", "assert", "raw ordering of sequence numbers at "+x.P.Fset.Position(t.Pos()).String(), fr.C.Serial,
+		Eq(raw, ser), nil, "ordering comparisons between sequence numbers follow serial-number arithmetic")
+}
+
+// snaUsers lists the functions that call the serial-number helpers.
+func snaUsers(p *Program) {
+	var keys []string
+	for k := range p.FuncByKey {
+		keys = append(keys, k)
+	}
+	sort.Strings(keys)
+	for _, k := range keys {
+		fn := p.FuncByKey[k]
+		if isSpecFile(p, fn) || fn.Parent() != nil {
+			continue
+		}
+		uses := false
+		var scan func(f *ssa.Function)
+		scan = func(f *ssa.Function) {
+			for _, b := range f.Blocks {
+				for _, in := range b.Instrs {
+					if c, ok := in.(ssa.CallInstruction); ok {
+						if sc := c.Common().StaticCallee(); sc != nil && strings.HasPrefix(sc.Name(), "sna") {
+							uses = true
+						}
+					}
+				}
+			}
+			for _, af := range f.AnonFuncs {
+				scan(af)
+			}
+		}
+		scan(fn)
+		if uses && !strings.HasPrefix(fn.Name(), "sna") {
+			fmt.Println(k)
+		}
+	}
+}
+
+func seqScan(p *Program) {
+	for _, s := range seqSites(p) {
+		fmt.Println(s)
+	}
+}
+
+// seqSites lists the raw ordering comparisons between two sequence-number values in the package.
+func seqSites(p *Program) []string {
+	var out []string
+	var keys []string
+	for k := range p.FuncByKey {
+		keys = append(keys, k)
+	}
+	sort.Strings(keys)
+	for _, k := range keys {
+		fn := p.FuncByKey[k]
+		if isSpecFile(p, fn) {
+			continue
+		}
+		var scan func(f *ssa.Function)
+		scan = func(f *ssa.Function) {
+			for _, b := range f.Blocks {
+				for _, in := range b.Instrs {
+					t, ok := in.(*ssa.BinOp)
+					if !ok {
+						continue
+					}
+					switch t.Op.String() {
+					case "<", "<=", ">", ">=":
+					default:
+						continue
+					}
+					if _, c := t.X.(*ssa.Const); c {
+						continue
+					}
+					if _, c := t.Y.(*ssa.Const); c {
+						continue
+					}
+					bt, ok := t.X.Type().Underlying().(*types.Basic)
+					if !ok || (bt.Kind() != types.Uint32 && bt.Kind() != types.Uint16) {
+						continue
+					}
+					if isSeqTyped(t.X, 0) && isSeqTyped(t.Y, 0) {
+						pos := p.Fset.Position(t.Pos())
+						out = append(out, fmt.Sprintf("%s (%s:%d)", k, baseName(pos.Filename), pos.Line))
+					}
+				}
+			}
+			for _, af := range f.AnonFuncs {
+				scan(af)
+			}
+		}
+		scan(fn)
+	}
+	return out
 }
